@@ -10,7 +10,7 @@ MCMaxConn == NThreads * Reqs * (MaxFails + 1)
 \* commute with everything, so they are taken before any critical event fires; and of two adjacent
 \* independent critical events of different threads only the order "smaller thread first" is kept
 \* (the harness canonicalises what is left the same way, vh/c02.py: canonical()).
-AtLocal(p) == \/ Pc(p) \in {"g4", "send", "recv", "fin", "resp", "rel", "p4", "pend", "end"}
+AtLocal(p) == \/ Pc(p) \in {"g4", "send", "recv", "fin", "resp", "rel", "rc", "p4", "pend", "end"}
               \/ p \in Threads /\ Pc(p) = "idle" /\ loc[p].left > 0
 PtrKinds == {"test", "load", "swap"}
 QKinds == {"qget", "qput"}
